@@ -480,6 +480,19 @@ impl<'a, LS: LoadState<'a>> Loader<'a, LS> {
                     .indices
                     .get_predicate_skeleton(local_compilation_target, key)
                 {
+                    // Clauses contributed by other sources (other files, assert) stay
+                    // in place when this file's clauses are retracted, and the file's
+                    // new clauses are then compiled incrementally, which never installs
+                    // a new code index: the index must keep pointing at the predicate.
+                    if global_skeleton
+                        .core
+                        .clause_clause_locs
+                        .iter()
+                        .any(|loc| !skeleton.clause_clause_locs.contains(loc))
+                    {
+                        continue;
+                    }
+
                     let old_index_ptr = code_index.replace(
                         &mut LS::machine_st(&mut self.payload).arena.code_index_tbl,
                         if global_skeleton.core.is_dynamic {
@@ -498,6 +511,29 @@ impl<'a, LS: LoadState<'a>> Loader<'a, LS> {
 
         for (key, code_index) in removed_module.code_dir.iter_mut() {
             if skipped_local_predicates.contains(key) {
+                continue;
+            }
+
+            // The file defined the predicate before it was made extensible by another
+            // source, whose clauses are still in place: the file's new clauses will be
+            // compiled incrementally, so the shared code index must stay.
+            let shared_with_extensible = self
+                .wam_prelude
+                .indices
+                .code_dir
+                .get(key)
+                .map(|user_index| usize::from(crate::offset_table::CodeIndexOffset::from(*user_index))
+                        == usize::from(crate::offset_table::CodeIndexOffset::from(*code_index)))
+                .unwrap_or(false)
+                && self
+                    .wam_prelude
+                    .indices
+                    .extensible_predicates
+                    .get(key)
+                    .map(|skeleton| !skeleton.clauses.is_empty())
+                    .unwrap_or(false);
+
+            if shared_with_extensible {
                 continue;
             }
 
